@@ -1,9 +1,9 @@
 package sim
 
 import (
-	"math/bits"
 	"encoding/json"
 	"fmt"
+	"math/bits"
 	"sort"
 	"strings"
 
